@@ -37,7 +37,10 @@ pub fn gen_wf(r: &mut Rng) -> (Vec<String>, Doc) {
         if let Some(a) = d.models.first().and_then(|m| m.1.first()).cloned() {
             let mut extra = vec![format!("DBREF  1ABC {} {:>4}  {:>4}  UNP    P12345   TEST_HUMAN   {:>5}  {:>5} ", a.chain, a.resseq, a.resseq + 50, 1, 51)];
             if r.chance(1, 2) { extra.push(format!("SEQADV 1ABC MET {} {:>4}  UNP  P12345    ALA    12 ENGINEERED MUTATION   ", a.chain, a.resseq)); }
-            if r.chance(1, 2) { extra.push(format!("MODRES 1ABC {:>3} {} {:>4}{} SER  PHOSPHOSERINE", a.resname.to_uppercase(), a.chain, a.resseq, a.icode)); }
+            // a residue number that carries two different residue names is merged by the documented redistribution of
+            // blank-altloc atoms; a MODRES naming the vanished conformer would then (rightly) not be found
+            let one_name = d.models[0].1.iter().filter(|x| x.chain == a.chain && x.resseq == a.resseq && x.icode == a.icode).all(|x| x.resname.eq_ignore_ascii_case(&a.resname));
+            if one_name && r.chance(1, 2) { extra.push(format!("MODRES 1ABC {:>3} {} {:>4}{} SER  PHOSPHOSERINE", a.resname.to_uppercase(), a.chain, a.resseq, a.icode)); }
             let at = lines.iter().position(|l| l.starts_with("CRYST1") || l.starts_with("ORIGX") || l.starts_with("SCALE") || l.starts_with("MTRIX") || l.starts_with("MODEL") || l.starts_with("ATOM") || l.starts_with("HETATM")).unwrap_or(lines.len());
             for (k, e) in extra.into_iter().enumerate() { lines.insert(at + k, e); }
             // the MASTER record does not count these, fine
